@@ -1003,7 +1003,8 @@ class Extractor {
       }
       BOb["succ"] = std::move(Succ);
       if (B->succ_size() >= 2 || IsSwitch) {
-        const Stmt* Cond = B->getTerminatorCondition(false);
+        const Stmt* Cond = B->getLastCondition();
+        if (!Cond) Cond = B->getTerminatorCondition(false);
         if (auto* CE = dyn_cast_or_null<Expr>(Cond)) {
           BOb["cond"] = desc(F, CE);
           BOb["cond_line"] = (int64_t)lineOf(CE->getExprLoc());
